@@ -271,7 +271,7 @@ func runC14JSON(pl *plan.Plan, out *plan.Outcome) {
 		}
 	})
 	if res := env.Run(); res != "done" && out.Trouble == "" {
-		out.Trouble = "run ended: " + res
+		env.runEnded(res, out)
 		return
 	}
 	if out.Trouble != "" {
